@@ -451,6 +451,10 @@ def run(prog, ctx):
     res.rule("C05.D", n_d, 1, "re-insertion scans after deletion in the pair table")
     # ---------------- C05.K a decision taken after an insertion looks at the count after it (common.stale_count_decisions)
     C.stale_count_rule(res, prog, "C05.K", "cpc::", "CPC sketch")
+    # ---------------- C05.Z a table and the recorded log2 of its size change together: no callee sees one without the other
+    n_z = 0
+    n_z += C.coupled_store_rule(res, prog, "C05.Z", "cpc::pair_table::PairTable", "slots", "lg_size")
+    res.rule("C05.Z", n_z, 0, "table / size field pairs")
     res.explanation = ("structural and formula rules over the %d functions reachable from CpcSketch::update; threshold formulas are evaluated on a grid of "
                        "lg_k 4..=26 x boundary/random coupon counts" % len(reach))
     res.not_decided = "equality of the reconstructed matrix with the model for all coupon streams"
